@@ -189,6 +189,18 @@ func (ex *Exec) callInner(fr *Frame, st *State, c *ssa.CallCommon, site ssa.Inst
 	if fv.F != nil && fv.F.Fn != nil {
 		return ex.callFunction(fr, st, fv.F.Fn, args, fv.F.Bindings, retT, site)
 	}
+	if fv.F != nil && fv.F.Builtin == "$foreignfunc" {
+		ex.havocClass(st, clsForeign)
+		if ex.discover != nil {
+			ex.discover.classes[clsForeign] = true
+		}
+		if retT == nil {
+			return nil
+		}
+		hv, facts := ex.havoc(retT, "ret.foreignfunc")
+		ex.assume(st, facts)
+		return hv
+	}
 	ex.oblige(st, "nil", ex.siteWhat(site), ex.tb.Ne(fv.C[0], ex.refLit(0)), site, "call of nil function value")
 	if fname := funcFieldName(c.Value); fname != "" {
 		if spec := ex.prog.externFor(fname); spec != nil {
@@ -434,6 +446,13 @@ func (ex *Exec) callSpec(fr *Frame, st *State, c *FuncContract, args []*Value, r
 					env.vars[c.ResultNames[i]] = ev
 				}
 				lo += n
+			}
+			if c.ForeignFuncs {
+				for _, ev := range elems {
+					if _, isFn := ev.T.Underlying().(*types.Signature); isFn {
+						ev.F = &FuncInfo{Builtin: "$foreignfunc"}
+					}
+				}
 			}
 			res = ex.mkTuple(retT, elems...)
 		} else if len(c.ResultNames) > 0 && c.ResultNames[0] != "" {
@@ -804,6 +823,13 @@ func (ex *Exec) execDeferredInner(fr *Frame, st *State, d *ssa.Defer, args []*Va
 	}
 	if fv.F != nil && fv.F.Fn != nil {
 		ex.callFunction(fr, st, fv.F.Fn, args[1:], fv.F.Bindings, retT, d)
+		return
+	}
+	if fv.F != nil && fv.F.Builtin == "$foreignfunc" {
+		ex.havocClass(st, clsForeign)
+		if ex.discover != nil {
+			ex.discover.classes[clsForeign] = true
+		}
 		return
 	}
 	ex.unknownCall(st, "deferred funcvalue", args, retT, d)
